@@ -311,6 +311,20 @@ def c01(ctx):
                 if ctx.rng.random() < 0.2: ops.append(('probe', 0))
             ops.append(('probe', 0))
             cases.append((name, ops)); note_case(res, name, ops)
+    # states reached through clone_from / merge_regions / reserve: pushes must succeed and read back there too
+    for name, e in ENTRIES:
+        c = caps(e)
+        if coded(e) or not c['clone']: continue
+        for _ in range(max(3, n_hist // 5)):
+            hg = HistGen(ctx, name, e)
+            ops = gen_ops(ctx, hg, ctx.rng.choice([0, 1, 3, 7]), 0) + gen_ops(ctx, hg, ctx.rng.choice([0, 2, 5, 12]), 1)
+            r = ctx.rng.random()
+            if r < 0.5: ops.append(('clonefrom', 1, 0))
+            elif r < 0.75: ops += [('clear', 1), ('clonefrom', 1, 0)]
+            else: ops += [('merge', 1, [0, 1])]
+            for _ in range(ctx.rng.choice([1, 3, 6])): ops.append(('push', 1, ctx.rng.randrange(hg.nforms), hg.value(repeat=0.6)))
+            ops.append(('probe', 1))
+            cases.append((name, ops)); note_case(res, name, ops)
     run_regions(ctx, res, cases, lambda e, ops, obs, mo=None: ref_oracle(e, ops, obs, (), mo), 'values')
     return res
 
